@@ -318,6 +318,12 @@ func c15(c *Ctx) {
 	c15Wiring(c)
 	c15HTTP(c, pxs)
 	c15SSH(c, pxs)
+	// the dispatcher's peek connection replays the client's first bytes to a proxy on a shared port (shared with C08), and no
+	// recycled buffer may stay behind it
+	if peekT, peek, pread := c.P.Type("server", "peekConnection"), c.P.Method("server", "peekConnection", "Peek"), c.P.Method("server", "peekConnection", "Read"); c.Anchor(peekT != nil && peek != nil && pread != nil, "peek-replay", "server.peekConnection with Peek and Read") {
+		c08Peek(c, peek, pread, peekT)
+	}
+	releasedMemoryNotRetained(c, "released-memory-not-retained", "the request one client's proxy forwards is overwritten by another client's first bytes", "server", "services")
 }
 
 // ---------- who may dial
